@@ -535,7 +535,39 @@ def _published_parent(db, chk, old):
     okf = len(first) == 1 and host_parents(first[0])
     chk.ob(rule, "host parents: every node id >= 0 of every stack of the rank maps to its stack parent, before the link overwrite", okf, where, found=[ast.unparse(u)[:140] for u in first],
            accepted="parents.update({node_id: node.parent for node_id, node in stack.get_nodes().items() if node_id >= 0})")
-    chk.floor(rule, 2)
+    # the parent column is published for every rank, under every option: the store is reached on every path of the per-rank iteration
+    pstores = [n for n in ast.walk(f) if isinstance(n, ast.Assign) and any(isinstance(t_, ast.Subscript) and lit(t_.slice) == "parent" for t_ in n.targets)]
+    if len(pstores) == 1:
+        st_ = pstores[0]
+        chain, cur = [], mod_parent(f, st_)
+        while cur is not None and cur is not f:
+            chain.append(cur)
+            cur = mod_parent(f, cur)
+        loop = next((x for x in chain if isinstance(x, (ast.For, ast.While))), None)
+        conds = [" ".join(ast.unparse(x.test).split())[:80] for x in chain[:chain.index(loop)] if isinstance(x, ast.If)] if loop is not None else [" ".join(ast.unparse(x.test).split())[:80] for x in chain if isinstance(x, ast.If)]
+        scope = loop.body if loop is not None else f.body
+        jumps = []
+        for x in (y for b_ in scope for y in ast.walk(b_)):
+            if isinstance(x, (ast.Continue, ast.Break, ast.Return)) and pos[id(x)] < pos[id(st_)]:
+                inner = any(isinstance(lp_, (ast.For, ast.While)) and lp_ is not loop and any(x is y for y in ast.walk(lp_)) for b_ in scope for lp_ in ast.walk(b_)) and not isinstance(x, ast.Return)
+                if not inner:
+                    g_ = mod_parent(f, x)
+                    jumps.append(f"{type(x).__name__.lower()} under `{' '.join(ast.unparse(g_.test).split())[:60]}`" if isinstance(g_, ast.If) else type(x).__name__.lower())
+        chk.ob(rule, "the parent column is stored for every rank on every path (no option or early exit stands between the stacks and the publication)", not conds and not jumps, where,
+               found={"store under": conds, "exits in front of it": jumps} if (conds or jumps) else "unconditional store at the end of the per-rank iteration", accepted="df['parent'] = ... reached by every iteration",
+               why="a guard clause for the optional depth column (`if disable_call_graph_depth(): continue`) also skips the parent column: the frame disagrees with the stacks")
+    else:
+        chk.ob(rule, "one store of the parent column", None, where, found=len(pstores))
+    chk.floor(rule, 3)
+
+
+def mod_parent(root, node):
+    """parent of a node inside `root` (computed on demand: inlined copies are not in the module's parent map)"""
+    for p_ in ast.walk(root):
+        for ch in ast.iter_child_nodes(p_):
+            if ch is node:
+                return p_
+    return None
 
 
 def _thread_identity(db, chk, new, old, rule="C03.R7-thread-identity", only_builder_of_critical_path=False):
